@@ -9,7 +9,7 @@ EXPLANATION = ('Static rules on GroupByObserver: G1 in next() the group of a new
                'or_insert_with closure) before the item is forwarded; on every path the item is forwarded exactly once, to the map entry looked '
                'up under the key computed from this very item, and the announced group wraps a clone of the subject that is inserted; G2 '
                'error()/complete() deliver the terminal to every drained group and then, once, to the outer observer; G5 the key map is indexed by the key value itself (key type parameter, entry(key)); G4 next() never removes a group from the key map (one group per key for the life of the source); G3 GroupByOp is '
-               'instantiated for Subject and SubjectThreads only (handle types). G7 the group subjects deliver every item and the terminal to every live subscriber of the group exactly once: the live list is walked inside one critical section and not edited during the walk, terminals take() it and skip only closed entries (same rules as C06.J1/J6/J3/J4); G6 every source delivers its terminal on every path, also when the observer reports finished early, so that it reaches the groups through G2 (same rule as C03.S1). Does not decide first-appearance order, hash routing or '
+               'instantiated for Subject and SubjectThreads only (handle types). G8 the subject helper that admits waiting subscribers removes no live subscriber (a group_by whose stream of groups ended early reports finished but its groups are still fed); G7 the group subjects deliver every item and the terminal to every live subscriber of the group exactly once: the live list is walked inside one critical section and not edited during the walk, terminals take() it and skip only closed entries (same rules as C06.J1/J6/J3/J4); G6 every source delivers its terminal on every path, also when the observer reports finished early, so that it reaches the groups through G2 (same rule as C03.S1). Does not decide first-appearance order, hash routing or '
                'round-trip equality.')
 ASSUMPTIONS = ['HashMap::entry/or_insert_with behave as documented']
 TAG = 'ops::group_by::GroupByObserver'
@@ -171,4 +171,10 @@ def _check_own(cx):
     for f in c06.check(cx):
         if f.rule in ('J1', 'J3', 'J4', 'J6') and ('subject::Subject<' in f.key or 'subject::SubjectThreads<' in f.key):
             res.append(Finding(ID, 'G7', f.rule + ':' + f.key, f.ok, f.msg, f.loc, f.witness))
+    # G8: the subject a group_by is subscribed to (a hot source, or a group that is grouped again) drops no live subscriber while it
+    # admits new ones: GroupByObserver reports finished as soon as the stream of groups has ended, while its groups are still fed
+    g8 = [f for f in c06.loader_edits(cx, ID, 'G8') if 'subject::Subject<' in f.key or 'subject::SubjectThreads<' in f.key]
+    res += g8
+    if len(g8) < 2:
+        res.append(Finding(ID, 'G8', 'floor', False, 'load helper of Subject/SubjectThreads not found'))
     return res
